@@ -174,13 +174,12 @@ theorem term_findL_plain (hW : 1 ≤ W) (sp : Pos) (rl : Bool) : ∀ fuel, TermS
 
 def TermSL (H W : Nat) (root : Val) (sp : Pos) (rl : Bool) (fuel : Nat) : Prop :=
   ∀ (toks : List Str) (par : PRef) (found : Str) (g : Nat),
-    (∀ t ∈ toks, NoNew t) →
     SafeRef PlainKey root par → TermRef H W root par → TermFound found g →
     termPotL H W toks g ≤ fuel →
     TermOut (fun _ => True) root (findL fuel root sp toks par rl found)
 
 theorem term_dispatch (ctx : TermCtx H W root) (f : Nat) (elem : PRef) (ev : Val) (rest : List Str) (rl : Bool)
-    (found : Str) (g : Nat) (hrest : ∀ t ∈ rest, NoNew t)
+    (found : Str) (g : Nat)
     (hK : SafeRef PlainKey root elem) (hB : TermRef H W root elem) (hfd : TermFound found g) (hh : termHgtRef root elem ≤ H)
     (hf : termPot H W rest H g ≤ f) :
     TermOut (fun _ => True) root (dispatchD f root elem ev rest rl found) := by
@@ -188,12 +187,12 @@ theorem term_dispatch (ctx : TermCtx H W root) (f : Nat) (elem : PRef) (ev : Val
   split
   · rename_i p _
     have := termPot_mono H W rest _ _ g g hh (Nat.le_refl _)
-    exact term_main ctx p rl f true rest elem found g hrest hK hB hfd (by omega)
+    exact term_main ctx p rl f true rest elem found g hK hB hfd (by omega)
   · exact TermOut_err (by decide)
 
 theorem term_findL_step (ctx : TermCtx H W root) (sp : Pos) (rl : Bool) (fuel : Nat)
     (ih : ∀ m, m < fuel → TermSL H W root sp rl m) : TermSL H W root sp rl fuel := by
-  intro toks par found g htoks hparK hparB hfd hfuel
+  intro toks par found g hparK hparB hfd hfuel
   have hW := ctx.hW
   obtain ⟨f, rfl⟩ : ∃ f, fuel = f + 1 := ⟨fuel - 1, by have := termPotL_pos H W toks g; omega⟩
   cases toks with
@@ -208,8 +207,6 @@ theorem term_findL_step (ctx : TermCtx H W root) (sp : Pos) (rl : Bool) (fuel : 
       exact term_findL_plain hW sp rl f (tokenize found) (.at sp) slash 0 ht (fun _ => rfl)
         (TermRef_at ctx.hgt ctx.wd sp) (SafeRef_at ctx.plain sp) (TermFound_slash 0) (by omega)
   | cons tok rest =>
-    have htok : NoNew tok := htoks tok (by simp)
-    have hrest : ∀ t ∈ rest, NoNew t := fun t ht => htoks t (by simp [ht])
     simp only [termPotL] at hfuel
     cases hpv : valOf root par with
     | none =>
@@ -274,11 +271,11 @@ theorem term_findL_step (ctx : TermCtx H W root) (sp : Pos) (rl : Bool) (fuel : 
                     (Nat.le_refl _)
                   · intro i it f' hf' _
                     obtain ⟨h2, h3, h4⟩ := helem par (Or.inl ⟨hl, rfl⟩) i
-                    exact term_dispatch ctx f' _ it rest rl _ (g + 1) hrest h2 h3
+                    exact term_dispatch ctx f' _ it rest rl _ (g + 1) h2 h3
                       (hfd.idx (i : Int)) h4 (by omega)
                   · intro i f' hf' hf'F
                     obtain ⟨h2, h3, _⟩ := helem par (Or.inl ⟨hl, rfl⟩) i
-                    exact ih f' (by omega) rest _ _ (g + 1) hrest h2 h3 (hfd.idx (i : Int))
+                    exact ih f' (by omega) rest _ _ (g + 1) h2 h3 (hfd.idx (i : Int))
                       (by omega)
             · split
               · rename_i e he; rw [n0eval_err he]; exact TermOut_err (by decide)
@@ -314,9 +311,9 @@ theorem term_findL_step (ctx : TermCtx H W root) (sp : Pos) (rl : Bool) (fuel : 
                         split
                         · exact ⟨rfl, trivial⟩
                         · split
-                          · exact term_dispatch ctx f _ _ rest rl _ (g + 1) hrest h2 h3
+                          · exact term_dispatch ctx f _ _ rest rl _ (g + 1) h2 h3
                               (hfd.idx i) h4 (by omega)
-                          · exact ih f (by omega) rest _ _ (g + 1) hrest h2 h3 (hfd.idx i)
+                          · exact ih f (by omega) rest _ _ (g + 1) h2 h3 (hfd.idx i)
                               (by omega)
                           · exact TermOut_err (by decide)
                   cases pv with
@@ -342,25 +339,24 @@ theorem term_ctx_of {t : Val} (hp : SafeKeys PlainKey t) :
     TermCtx (termHgt t) (max 1 (termWd t)) t :=
   ⟨by omega, Nat.le_refl _, by omega, hp⟩
 
-/-- `_get` on a safe path and a tree with plain keys never exhausts the fuel `termFuel` -/
+/-- `_get` of any path text on a tree with plain keys never exhausts the fuel `termFuel` -/
 theorem term_getCore (fuel : Nat) (root : Val) (xp : Str) (dflt : Val) (raise rl : Bool)
-    (hxp : NoNew xp) (hp : SafeKeys PlainKey root) (hf : termFuel root xp ≤ fuel) :
+    (hp : SafeKeys PlainKey root) (hf : termFuel root xp ≤ fuel) :
     (getCore fuel root xp dflt raise rl).2 ≠ .error .OutOfFuel := by
   have ctx := term_ctx_of hp
-  have hdrop : NoNew (xp.drop 1) := P_drop 1 hxp
   have hcaught : caught PyErr.OutOfFuel = false := by decide
   -- the two searches, for either token list
-  have hD : ∀ s, NoNew s → termPot (termHgt root) (max 1 (termWd root)) (tokenize s) (termHgt root) 0 ≤ fuel →
+  have hD : ∀ s, termPot (termHgt root) (max 1 (termWd root)) (tokenize s) (termHgt root) 0 ≤ fuel →
       TermOut (fun _ => True) root (findD fuel root [] false true (tokenize s) (.at []) rl slash) := by
-    intro s hs' hle
-    refine term_main ctx [] rl fuel true (tokenize s) (.at []) slash 0 (P_tokenize hs')
+    intro s hle
+    refine term_main ctx [] rl fuel true (tokenize s) (.at []) slash 0
       (SafeRef_at ctx.plain []) (TermRef_at ctx.hgt ctx.wd []) (TermFound_slash 0) ?_
     have : termHgtRef root (.at []) = termHgt root := by simp [termHgtRef, valOf, getAt]
     rw [this]; exact hle
-  have hL : ∀ s, NoNew s → termPotL (termHgt root) (max 1 (termWd root)) (tokenize s) 0 ≤ fuel →
+  have hL : ∀ s, termPotL (termHgt root) (max 1 (termWd root)) (tokenize s) 0 ≤ fuel →
       TermOut (fun _ => True) root (findL fuel root [] (tokenize s) (.at []) rl slash) := by
-    intro s hs' hle
-    exact term_findL ctx [] rl fuel (tokenize s) (.at []) slash 0 (P_tokenize hs')
+    intro s hle
+    exact term_findL ctx [] rl fuel (tokenize s) (.at []) slash 0
       (SafeRef_at ctx.plain []) (TermRef_at ctx.hgt ctx.wd []) (TermFound_slash 0) hle
   unfold termFuel at hf
   simp only at hf
@@ -393,11 +389,11 @@ theorem term_getCore (fuel : Nat) (root : Val) (xp : Str) (dflt : Val) (raise rl
     by_cases hq : startsWith xp ['?'] = true
     · simp only [hq, if_true] at hf ⊢
       split
-      · exact hfin false emptyStr _ (hD (xp.drop 1) hdrop (by omega)) _ rfl
+      · exact hfin false emptyStr _ (hD (xp.drop 1) (by omega)) _ rfl
       · split <;> simp
     · simp only [hq, Bool.false_eq_true, if_false] at hf ⊢
       split
-      · exact hfin raise dflt _ (hD xp hxp (by omega)) _ rfl
+      · exact hfin raise dflt _ (hD xp (by omega)) _ rfl
       · split
         · simp
         · split <;> simp
@@ -409,7 +405,7 @@ theorem term_getCore (fuel : Nat) (root : Val) (xp : Str) (dflt : Val) (raise rl
     · by_cases hq : startsWith xp ['?'] = true
       · simp only [hq, if_true] at hf ⊢
         split
-        · exact hfin false emptyStr _ (hL (xp.drop 1) hdrop (by omega)) _ rfl
+        · exact hfin false emptyStr _ (hL (xp.drop 1) (by omega)) _ rfl
         · split
           · rename_i e he
             intro heq; simp only [Except.error.injEq] at heq; subst heq
@@ -418,7 +414,7 @@ theorem term_getCore (fuel : Nat) (root : Val) (xp : Str) (dflt : Val) (raise rl
           · simp
       · simp only [hq, Bool.false_eq_true, if_false] at hf ⊢
         split
-        · exact hfin raise dflt _ (hL xp hxp (by omega)) _ rfl
+        · exact hfin raise dflt _ (hL xp (by omega)) _ rfl
         · split
           · rename_i e he
             intro heq; simp only [Except.error.injEq] at heq; subst heq
